@@ -385,6 +385,19 @@ func cmdCheck(prop, tier string) int {
 				validated++
 			}
 		}
+		if sp.Replay == "e2e-layout" {
+			// validation: solver-chosen layouts on assertion-clean paths must be accepted end to end
+			for i, vs := range res.Validation {
+				if i >= 6 {
+					break
+				}
+				if bad, out := e2eLayout(vs.Model); bad {
+					inconcl = append(inconcl, "ENCODER-MISMATCH (e2e validation) "+sp.Name+": the layout invariant holds but the real binary rejects the rendered file: "+clip(out, 600))
+				} else {
+					validated++
+				}
+			}
+		}
 		if sp.Replay == "e2e-cli" {
 			for i, vs := range res.Validation {
 				if i >= 3 {
